@@ -60,6 +60,37 @@ check('C03',
       'Rows of anti-windup-pegged states are skipped.',
       'DESIGN.md 7 C03')
 
+check('C18',
+      'exhaustive enumeration of the 25 linear block classes x property-based parameter tuples and complex '
+      'frequencies (Hypothesis): the exported equation strings (through a real owner Model) are evaluated by the '
+      'independent evaluator at unit vectors, the Laplace-domain linear system is solved and y/u compared with the '
+      'documented transfer function; steady-state balance of declared initial values; limited variants inside limits',
+      'Algebraic identity testing at random points (Schwartz-Zippel style) against transfer functions typed in '
+      'from the documentation; every documented zero-time-constant bypass is a generated class.',
+      'Trusted: the table of documented transfer functions in vf/props/c18.py, numpy linear solve, relative 1e-9. '
+      'Zero-out flags come from the real LessThan.check_var.',
+      'DESIGN.md 7 C18')
+
+check('C20',
+      'property-based testing (Hypothesis) over the enumerated catalogue of all configuration fields '
+      '(System, routines, models) x supply channels (rc file, option string, both, dict): field-by-field comparison '
+      'with a coercion/precedence reference model, defaults of all unassigned fields, use sites, save->load round trip, '
+      'rejection of invalid alternatives and malformed option strings; plus one exhaustive pass over every field',
+      'Reference-model comparison over generated configurations; every field is exercised at least once per run '
+      'through the file channel (all sections) and the option channel (System and routines).',
+      'Trusted: the 3-line coercion oracle (int, then float, else str) and the precedence rule as documented.',
+      'DESIGN.md 7 C20')
+
+check('C19',
+      'stateful property-based testing (Hypothesis RuleBasedStateMachine): generated histories of device additions '
+      'across the models of multi-model groups with explicit/missing/colliding/auto-pattern idx and dangling '
+      'references, interleaved find_idx queries, then setup(); invariants from the machine\'s own tables: idx '
+      'uniqueness, find_idx == list comprehension, BackRef multisets, find-or-add helpers, dangling references reported',
+      'Model-based testing: the reference model is the list of rows the machine added; every invariant is '
+      'recomputed from it after each rule.',
+      'Trusted: the machine\'s row tables. Covers 16 models of 9 groups (not every model of the library).',
+      'DESIGN.md 7 C19')
+
 NOT_BUILT = 'check not built yet in this round (machinery in progress; see DESIGN.md section 10 build order)'
 ALL = ['C%02d' % i for i in range(1, 21)]
 
